@@ -665,6 +665,7 @@ def main_check(prop_id, tier, seed, replay=None):
         cov['coqchk'] = {'completed': False, 'reason': getattr(mod, 'COQCHK_NOTE', 'skipped (SV_NO_COQCHK or build red)')}
 
     # 4. cases
+    gen_error = None
     rng = random.Random(seed)
     corpus = []
     cdir = os.path.join(ROOT, 'corpus', prop_id)
@@ -677,7 +678,14 @@ def main_check(prop_id, tier, seed, replay=None):
         rp = json.load(open(replay))
         cases = [rp['case']] if 'case' in rp else []
     else:
-        cases = corpus + list(mod.gen_cases(rng, tier))
+        # generators may build their inputs with the implementation itself (writers, constructors): when the tree under
+        # test is broken there, that is a finding to report, not a reason to crash
+        try:
+            gen = list(mod.gen_cases(rng, tier))
+        except Exception:
+            gen_error = traceback.format_exc()
+            gen = []
+        cases = corpus + gen
     recs, errs = ([], [])
     srccov = SourceCoverage(prop_id)
     srccov.funcs = getattr(mod, 'MODELLED_FUNCS', None)
@@ -702,26 +710,44 @@ def main_check(prop_id, tier, seed, replay=None):
             in_domain += 1
             if r['evaluated'] and not agree(mod, r):
                 disagreements.append(r)
-            sp = mod.spec(c, r['impl']) if hasattr(mod, 'spec') else None
+            try:
+                sp = mod.spec(c, r['impl']) if hasattr(mod, 'spec') else None
+            except Exception as e:      # the oracle met a value of a shape no correct implementation returns
+                sp = 'oracle could not evaluate the result (%s: %s)' % (type(e).__name__, str(e)[:200])
             if sp:
                 r['spec'] = sp
                 spec_fail.append(r)
-            mk = mod.nontrivial(c, r['impl']) if hasattr(mod, 'nontrivial') else json.dumps(c, sort_keys=True)
+            try:
+                mk = mod.nontrivial(c, r['impl']) if hasattr(mod, 'nontrivial') else json.dumps(c, sort_keys=True)
+            except Exception:
+                mk = None
             if mk is not None:
                 nontriv.add(json.dumps([mk, c], sort_keys=True, default=str))
         else:
             if r['evaluated'] and not agree(mod, r):
                 drift += 1
         if hasattr(mod, 'histkey'):
-            hk = mod.histkey(c, r['impl'])
+            try:
+                hk = mod.histkey(c, r['impl'])
+            except Exception:
+                hk = 'histkey-error'
             for k in (hk if isinstance(hk, list) else [hk]):
                 hist[k] = hist.get(k, 0) + 1
     # extra relational checks (no model needed)
+    relshape = {'impl': None, 'model': None, 'wf': True, 'evaluated': False, 'noshrink': True, 'relational': True}
     if hasattr(mod, 'extra_checks'):
       with srccov:
-        for v in mod.extra_checks(rng, tier, cov):
-            v = dict({'impl': None, 'model': None, 'wf': True, 'evaluated': False, 'noshrink': True, 'relational': True}, **v)
-            spec_fail.append(v)
+        try:
+            for v in mod.extra_checks(rng, tier, cov):
+                spec_fail.append(dict(relshape, **v))
+        except Exception:
+            tb = traceback.format_exc()
+            spec_fail.append(dict(relshape, case={'_relational_check_error': tb[-3000:]},
+                                  spec='a relational check raised while driving the implementation: ' + tb.strip().split('\n')[-1][:300]))
+    if gen_error:
+        spec_fail.append(dict(relshape, case={'_generator_error': gen_error[-3000:]},
+                              spec='the case generator builds its inputs with the implementation, which raised: '
+                                   + gen_error.strip().split('\n')[-1][:300]))
 
     def is_known(r):
         for e in known:
